@@ -668,8 +668,19 @@ checkMessage(CS104_Connection self, uint8_t* buffer, int msgSize)
 
         if (asdu)
         {
-            if (self->receivedHandler != NULL)
+            if (self->receivedHandler != NULL) {
+                /* checkMessage runs with conStateLock held: release it while the application handler
+                 * runs, otherwise a handler that sends a command deadlocks on this lock */
+#if (CONFIG_USE_SEMAPHORES == 1)
+                Semaphore_post(self->conStateLock);
+#endif /* (CONFIG_USE_SEMAPHORES == 1) */
+
                 self->receivedHandler(self->receivedHandlerParameter, -1, asdu);
+
+#if (CONFIG_USE_SEMAPHORES == 1)
+                Semaphore_wait(self->conStateLock);
+#endif /* (CONFIG_USE_SEMAPHORES == 1) */
+            }
         }
         else
         {
